@@ -272,79 +272,99 @@ def verify_unit(unit, digit, mode, canary=False, use_cache=True):
             return out
         except Exception:
             pass
-    vdir = os.path.join(BUILD, 'verus')
-    os.makedirs(vdir, exist_ok=True)
-    path = os.path.join(vdir, tag + '.rs')
-    open(path, 'w').write(text)
-    res = run_verus(path, multiple_errors=(200 if canary else 8))
-    own = [it for it in g.items if it.entry.unit == unit and it.kind in ('fn', 'const', 'proof') and not getattr(it, 'assumed', False)]
-    assumed_keys = sorted({it.key for it in g.items if it.kind in ('fn', 'const') and it.assumed})
-    stubs_used = sorted(it.key for it in g.items if it.entry.unit != unit and it.kind in ('fn', 'const'))
-    crate = tag
-    items = []
-    byname = {}
-    for f in res['functions']:
-        byname[f['function']] = f
-    problems = [dict(kind=k, key=key, detail=d) for (k, key, d) in g.problems]
-    # map diagnostics to items by line
-    def item_at(line):
-        for a, b, it in linemap:
-            if line is not None and a <= line <= b:
-                return it
-        return None
-    failures = []
-    others = []
-    for d in res['diagnostics']:
-        if d['level'] != 'error':
-            continue
-        it = item_at(d['line'])
-        if it is None or it.kind in ('raw', 'spec'):
-            # e.g. a failing postcondition of a trait impl method is reported at the `ensures` of the
-            # trait declaration (a raw item); the function is named by a secondary span
-            for l in d['all_lines']:
-                it2 = item_at(l)
-                if it2 is not None and it2.kind not in ('raw', 'spec'):
-                    it = it2
+    degrade = set()
+    for attempt in range(3):
+        if degrade:
+            text, linemap = g.render(unit, canary=canary, degrade=degrade)
+        vdir = os.path.join(BUILD, 'verus')
+        os.makedirs(vdir, exist_ok=True)
+        path = os.path.join(vdir, tag + '.rs')
+        open(path, 'w').write(text)
+        res = run_verus(path, multiple_errors=(200 if canary else 8))
+        own = [it for it in g.items if it.entry.unit == unit and it.kind in ('fn', 'const', 'proof') and not getattr(it, 'assumed', False)]
+        assumed_keys = sorted({it.key for it in g.items if it.kind in ('fn', 'const') and it.assumed})
+        stubs_used = sorted(it.key for it in g.items if it.entry.unit != unit and it.kind in ('fn', 'const'))
+        crate = tag
+        items = []
+        byname = {}
+        for f in res['functions']:
+            byname[f['function']] = f
+        problems = [dict(kind=k, key=key, detail=d) for (k, key, d) in g.problems]
+        # map diagnostics to items by line
+        def item_at(line):
+            for a, b, it in linemap:
+                if line is not None and a <= line <= b:
+                    return it
+            return None
+        failures = []
+        others = []
+        for d in res['diagnostics']:
+            if d['level'] != 'error':
+                continue
+            it = item_at(d['line'])
+            if it is None or it.kind in ('raw', 'spec'):
+                # e.g. a failing postcondition of a trait impl method is reported at the `ensures` of the
+                # trait declaration (a raw item); the function is named by a secondary span
+                for l in d['all_lines']:
+                    it2 = item_at(l)
+                    if it2 is not None and it2.kind not in ('raw', 'spec'):
+                        it = it2
+                        break
+            cls = classify(d['message'])
+            rec = dict(item=it.key if it else None, unit=it.entry.unit if it else None, message=d['message'], cls=cls, line=d['line'], rendered=d['rendered'], labels=d['labels'])
+            if cls == 'other':
+                others.append(rec)
+            else:
+                failures.append(rec)
+        failed_items = {}
+        for f in failures:
+            failed_items.setdefault(f['item'], []).append(f)
+        ran_verification = res.get('summary_ok') and not others and res['status'] == 'done' and not res.get('encountered_vir_error')
+        for it in own:
+            ob = count_obligations(it.full)
+            fl = failed_items.get(it.key, [])
+            # find smt record
+            rec = None
+            short = it.key.split('::')[-1]
+            if it.kind == 'fn' and 'ext_trait' in it.entry.opts and it.header_tokens:
+                short = it.header_tokens[it.header_tokens.index('fn') + 1]   # emitted as inherent `Trait__method`
+            for fn, f in byname.items():
+                if fn.endswith('::' + short) and _fn_matches(fn, it, crate):
+                    rec = f
                     break
-        cls = classify(d['message'])
-        rec = dict(item=it.key if it else None, unit=it.entry.unit if it else None, message=d['message'], cls=cls, line=d['line'], rendered=d['rendered'], labels=d['labels'])
-        if cls == 'other':
-            others.append(rec)
-        else:
-            failures.append(rec)
-    failed_items = {}
-    for f in failures:
-        failed_items.setdefault(f['item'], []).append(f)
-    ran_verification = res.get('summary_ok') and not others and res['status'] == 'done' and not res.get('encountered_vir_error')
-    for it in own:
-        ob = count_obligations(it.full)
-        fl = failed_items.get(it.key, [])
-        # find smt record
-        rec = None
-        short = it.key.split('::')[-1]
-        if it.kind == 'fn' and 'ext_trait' in it.entry.opts and it.header_tokens:
-            short = it.header_tokens[it.header_tokens.index('fn') + 1]   # emitted as inherent `Trait__method`
-        for fn, f in byname.items():
-            if fn.endswith('::' + short) and _fn_matches(fn, it, crate):
-                rec = f
-                break
-        status = 'proved'
-        if not ran_verification:
-            status = 'undecided'
-        elif fl:
-            status = 'rlimit' if all(x['cls'] == 'rlimit' for x in fl) else 'failed'
-        elif rec is not None and rec.get('success') is False:
-            status = 'failed'
-        items.append(dict(key=it.key, kind=it.kind, status=status, obligations=ob, discharged=(ob if status == 'proved' else max(0, ob - max(1, len(fl))) if status in ('failed', 'rlimit') else 0),
-                          smt_us=rec['time_us'] if rec else None, rlimit=rec['rlimit'] if rec else None,
-                          align_ratio=round(it.ratio, 4), identical=it.identical, rewrites=it.log, code_tokens=it.code_tokens, n_canaries=it.n_canaries, canaries_fired=(sum(1 for x in fl if 'assertion failed' in x['message']) if canary else None),
-                          failures=[dict(message=x['message'], rendered=x['rendered'], cls=x['cls']) for x in fl]))
+            status = 'proved'
+            if not ran_verification:
+                status = 'undecided'
+            elif fl:
+                status = 'rlimit' if all(x['cls'] == 'rlimit' for x in fl) else 'failed'
+            elif rec is not None and rec.get('success') is False:
+                status = 'failed'
+            items.append(dict(key=it.key, kind=it.kind, status=status, obligations=ob, discharged=(ob if status == 'proved' else max(0, ob - max(1, len(fl))) if status in ('failed', 'rlimit') else 0),
+                              smt_us=rec['time_us'] if rec else None, rlimit=rec['rlimit'] if rec else None,
+                              align_ratio=round(it.ratio, 4), identical=it.identical, rewrites=it.log, code_tokens=it.code_tokens, n_canaries=it.n_canaries, canaries_fired=(sum(1 for x in fl if 'assertion failed' in x['message']) if canary else None),
+                              failures=[dict(message=x['message'], rendered=x['rendered'], cls=x['cls']) for x in fl]))
+        if not ran_verification and not canary:
+            # ghost text that no longer compiles against a changed function: retry with that function degraded to
+            # "contract header on the fresh body" (no inner ghost text).  Proved => the change kept the contract;
+            # not proved => undecided for that function (never an alarm by itself; check.py then asks Kani)
+            ownkeys = {it.key: it for it in own}
+            bad = {o['item'] for o in others if o['item'] in ownkeys and not ownkeys[o['item']].identical
+                   and getattr(ownkeys[o['item']], 'degraded_full', None) and o['item'] not in degrade}
+            if bad:
+                degrade |= bad
+                continue
+        break
+    for rec_ in items:
+        if rec_['key'] in degrade:
+            rec_['degraded'] = True
+            if rec_['status'] in ('failed', 'rlimit'):
+                rec_['status'] = 'undecided'
     out = dict(unit=unit, digit=digit, mode=mode, canary=canary, file=path, cmd=res.get('cmd'), wall_s=res.get('wall_s'),
                verus_status=res['status'], verified=res.get('verified'), errors=res.get('errors'),
                ran_verification=bool(ran_verification), items=items, problems=problems,
                other_errors=others[:10], unattributed_failures=[f for f in failures if f['item'] is None or f['item'] not in {i.key for i in own}][:10],
                stubs=stubs_used, assumed=assumed_keys, stderr_tail=res.get('stderr_tail', ''),
-               n_lines=text.count('\n'))
+               n_lines=text.count('\n'), degraded=sorted(degrade))
     for cp in (cpath, cpath2):
         tmp = cp + '.tmp%d' % os.getpid()
         json.dump(out, open(tmp, 'w'))
